@@ -27,8 +27,10 @@ var (
 	// the last three: letters whose lower-case form has another encoded length (U+0130, KELVIN SIGN U+212A) and a plain non-ASCII one
 	c03Paths     = []string{"/", "/a", "/a/", "/a/b", "/a/b/c", "/ab", "/A/b", "/b", "/B", "/FOO/bar", "/foo", "/\u0130stanbul", "/\u212Aelvin/a", "/\u00dcber"}
 	c03IPv6Hosts = []string{"[2001:db8::1]", "[2001:db8::1]:8080", "[::1]"} // literal names ('[' opens a class for the glob matcher)
-	c03GlobPaths = []string{"/*", "/a*", "/a/*", "/a/b*", "/a/b/*", "/ab*", "/A/b*", "/b*", "/a/b/c", "/a/{", "/a{", "/{"}
-	c03ReqPaths  = []string{"/", "/a", "/a/", "/a/b", "/a/b/c", "/a/b/c/d", "/ab", "/abc", "/A/b", "/A/B", "/b", "/B/x", "/c", "/foo/bar", "/FOO/bar/x", "/Foo", "",
+	c03GlobPaths = []string{"/*", "/a*", "/a/*", "/a/b*", "/a/b/*", "/ab*", "/A/b*", "/b*", "/a/b/c", "/a/{", "/a{", "/{",
+		// literal characters that sort below '*' and a '?' that sorts above the digits: the longer literal prefix still wins
+		"/a/$meta", "/a/(d)/*", "/a/v?*", "/a/v1/u*", "/a/!x*"}
+	c03ReqPaths  = []string{"/a/$meta", "/a/(d)/x", "/a/v1/u/5", "/a/v2/x", "/a/!x/y", "/", "/a", "/a/", "/a/b", "/a/b/c", "/a/b/c/d", "/ab", "/abc", "/A/b", "/A/B", "/b", "/B/x", "/c", "/foo/bar", "/FOO/bar/x", "/Foo", "",
 		"/istanbul/map", "/\u0130STANBUL", "/kelvin/a/b", "/Kelvin/a", "/\u212Aelvin/a/x", "/\u00fcber/x", "/\u00dcBER"}
 )
 
